@@ -310,6 +310,8 @@ type knownClass struct {
 		MinI int      `json:"min_i"`
 	} `json:"ops"` // empty: every plan
 	Witnesses int `json:"witnesses"`
+	// Prefer: plan strings (plan.String()) of recorded concrete witnesses; they are evaluated first
+	Prefer []string `json:"prefer"`
 }
 
 func (k *knownClass) matches(ex string, p *plan) bool {
@@ -456,7 +458,6 @@ func init() {
 				return err
 			}
 		}
-		knownTaken := map[string]int{}
 		skippedKnown := map[string]int{}
 		witness := map[[2]int]bool{} // (unit, plan) pairs evaluated only as witnesses of a listed class
 		pick := func(un int, exName, fx, p string) []int {
@@ -464,31 +465,7 @@ func init() {
 			if c, ok := caps[exName]; ok {
 				a, b = c[0], c[1]
 			}
-			idx := planSubset(plans, a, b, seed, exName+"|"+fx+"|"+p)
-			if len(known) == 0 {
-				return idx
-			}
-			out := idx[:0:0]
-			for _, pi := range idx {
-				skip := false
-				for _, k := range known {
-					if k.matches(exName, plans[pi]) {
-						key := k.ID + "|" + exName
-						if knownTaken[key] >= k.Witnesses {
-							skip = true
-							skippedKnown[k.ID]++
-						} else {
-							knownTaken[key]++
-							witness[[2]int{un, pi}] = true
-						}
-						break
-					}
-				}
-				if !skip {
-					out = append(out, pi)
-				}
-			}
-			return out
+			return planSubset(plans, a, b, seed, exName+"|"+fx+"|"+p)
 		}
 		deadline := time.Duration(argInt(e, "deadline_s", 0)) * time.Second
 		repo := repoDir(e)
@@ -543,6 +520,65 @@ func init() {
 			covered = append(covered, map[string]any{"extractor": inf.Name, "fixtures": len(inf.Fixtures), "fixtures_over_256k": inf.BigSkipped, "paths": paths, "units": nu})
 		}
 		_ = repo
+		// scenarios inside a listed finding class: evaluate `Witnesses` of them per <class, extractor>
+		// (recorded witnesses first, then a seeded choice), skip the others
+		if len(known) > 0 {
+			type cand struct{ u, pi int }
+			cands := map[string][]cand{}
+			order := []string{}
+			for _, u := range units {
+				for _, pi := range u.Plans {
+					for _, k := range known {
+						if k.matches(u.Ex, plans[pi]) {
+							key := k.ID + "|" + u.Ex
+							if _, ok := cands[key]; !ok {
+								order = append(order, key)
+							}
+							cands[key] = append(cands[key], cand{u.U, pi})
+							break
+						}
+					}
+				}
+			}
+			drop := map[[2]int]bool{}
+			for _, key := range order {
+				var k *knownClass
+				for _, kk := range known {
+					if strings.HasPrefix(key, kk.ID+"|") {
+						k = kk
+					}
+				}
+				cs := cands[key]
+				h := fnv.New64a()
+				fmt.Fprintf(h, "%d|%s", seed, key)
+				rng := rand.New(rand.NewSource(int64(h.Sum64())))
+				rng.Shuffle(len(cs), func(i, j int) { cs[i], cs[j] = cs[j], cs[i] })
+				pref := map[string]bool{}
+				for _, p := range k.Prefer {
+					pref[p] = true
+				}
+				sort.SliceStable(cs, func(i, j int) bool {
+					return pref[plans[cs[i].pi].String()] && !pref[plans[cs[j].pi].String()]
+				})
+				for i, c := range cs {
+					if i < k.Witnesses {
+						witness[[2]int{c.u, c.pi}] = true
+					} else {
+						drop[[2]int{c.u, c.pi}] = true
+						skippedKnown[k.ID]++
+					}
+				}
+			}
+			for _, u := range units {
+				kept := u.Plans[:0:0]
+				for _, pi := range u.Plans {
+					if !drop[[2]int{u.U, pi}] {
+						kept = append(kept, pi)
+					}
+				}
+				u.Plans = kept
+			}
+		}
 		// big fixtures first (long jobs early), deterministic
 		order := make([]int, len(units))
 		for i := range order {
